@@ -1,6 +1,6 @@
 CONSTANTS
   NameSeq <- N3
-  Cidrs <- Fam3
+  Cidrs <- Fam2
   BlockSpots <- Spots1
   CidrOverlap <- TabOverlap
   CidrCovers <- TabCovers
